@@ -426,7 +426,9 @@ class Fn:
                     if l is None or not self.local_ty(l).startswith("&mut"):
                         continue
                     tgt = self.resolve_ptr(l)
-                    if tgt is not None and all(e[0] in ("deref", "field") for e in tgt[1]):
+                    # the whole local (or what it points to) is borrowed: `v.push(x)`; a borrow of one field (`self.writer`) says
+                    # nothing about the other fields and is not attributed to the local
+                    if tgt is not None and all(e[0] == "deref" for e in tgt[1]):
                         m.setdefault(tgt[0], []).append((b, t))
             self._mutcalls = m
         return self._mutcalls
